@@ -5,6 +5,7 @@ CONSTANTS
   TypesC <- TypesAll
   Depth = "full"
   FieldSet = "full"
+  Entries <- EntriesUntrusted
   MaxOps = 1
   Heavy <- NoOps
   HeavyAfter <- NoOps
